@@ -913,7 +913,7 @@ func runBufExec(execID int, sc *BScenario, mode string, seed int64, strategy str
 	x.ctxs = make([]context.Context, sc.NCtx+1)
 	x.cancels = make([]context.CancelFunc, sc.NCtx+1)
 	for i := 1; i <= sc.NCtx; i++ {
-		x.ctxs[i], x.cancels[i] = context.WithCancel(context.Background())
+		x.ctxs[i], x.cancels[i] = withCancelCause(context.Background())
 	}
 	x.r.Add(rec.Ev{"ev": "reset", "exec": execID, "cleaner": map[string]any{"kind": sc.Cleaner.Kind, "max": sc.Cleaner.Max, "target": sc.Cleaner.Target}, "mode": mode})
 	cleaner := mkCleaner(sc.Cleaner)
